@@ -147,3 +147,93 @@ func locKind(v ssa.Value, d int) string {
 	}
 	return kind
 }
+
+// logicalArgs lists the scalar arguments of a call: the positional arguments (receiver included), with an argument
+// that is a struct built by a composite literal (a parameter object) expanded into its field values in field order.
+// A field the literal leaves unset is reported as the zero constant of its type (nil value, Zero true).
+type logicalArg struct {
+	V    ssa.Value
+	T    types.Type
+	Zero bool
+}
+
+func logicalArgs(cc *ssa.CallCommon) []logicalArg {
+	var out []logicalArg
+	for _, a := range cc.Args {
+		st, isStruct := a.Type().Underlying().(*types.Struct)
+		if !isStruct {
+			out = append(out, logicalArg{V: a, T: a.Type()})
+			continue
+		}
+		ld, ok := strip(a).(*ssa.UnOp)
+		var al *ssa.Alloc
+		if ok && ld.Op == token.MUL {
+			al, _ = ld.X.(*ssa.Alloc)
+		}
+		if al == nil || al.Referrers() == nil {
+			out = append(out, logicalArg{V: a, T: a.Type()})
+			continue
+		}
+		vals := map[int]ssa.Value{}
+		for _, u := range *al.Referrers() {
+			fa, ok := u.(*ssa.FieldAddr)
+			if !ok || fa.Referrers() == nil {
+				continue
+			}
+			for _, w := range *fa.Referrers() {
+				if s, ok := w.(*ssa.Store); ok && s.Addr == ssa.Value(fa) {
+					vals[fa.Field] = s.Val
+				}
+			}
+		}
+		for i := 0; i < st.NumFields(); i++ {
+			if v, ok := vals[i]; ok {
+				out = append(out, logicalArg{V: v, T: st.Field(i).Type()})
+			} else {
+				out = append(out, logicalArg{T: st.Field(i).Type(), Zero: true})
+			}
+		}
+	}
+	return out
+}
+
+// boolArg returns the constant value of the call's only boolean (logical) argument.
+func boolArg(cc *ssa.CallCommon) (val, isConst bool) {
+	n := 0
+	for _, a := range logicalArgs(cc) {
+		if !isBoolType(a.T) {
+			continue
+		}
+		n++
+		if a.Zero {
+			val, isConst = false, true
+		} else {
+			val, isConst = constBool(a.V)
+		}
+	}
+	if n != 1 {
+		return false, false
+	}
+	return val, isConst
+}
+
+// byteSliceArg returns the call's only []byte (logical) argument.
+func byteSliceArg(cc *ssa.CallCommon) ssa.Value {
+	var out ssa.Value
+	n := 0
+	for _, a := range logicalArgs(cc) {
+		sl, ok := a.T.Underlying().(*types.Slice)
+		if !ok {
+			continue
+		}
+		if b, ok := sl.Elem().Underlying().(*types.Basic); !ok || (b.Kind() != types.Byte && b.Kind() != types.Uint8) {
+			continue
+		}
+		n++
+		out = a.V
+	}
+	if n != 1 {
+		return nil
+	}
+	return out
+}
